@@ -712,6 +712,14 @@ TRANSPARENT_SUFFIX = (
 )
 
 
+def _renorm(t):
+    """one more local simplification step for a term built from already normalised parts"""
+    if t[0] == 'field' and t[1][0] == 'payload' and t[1][1][0] == 'phi':
+        p = norm(('payload', t[1][1], t[1][2]))
+        return norm(('field', p, t[2])) if p[0] != 'payload' else t
+    return t
+
+
 def norm(t):
     """Bottom-up normalisation: `?` desugaring is mapped onto plain Ok/Err payload terms; identity conversions
     and auto-deref calls become transparent."""
@@ -728,12 +736,12 @@ def norm(t):
             x = inner[1][2][0]
             if kind == 'Result':
                 if inner[2] == 'Continue':
-                    return field_of(payload_of(x, 'Ok'), '0', 0)
+                    return _renorm(field_of(payload_of(x, 'Ok'), '0', 0))
                 if inner[2] == 'Break':
                     return ('residual', x)
             if kind == 'Option':
                 if inner[2] == 'Continue':
-                    return field_of(payload_of(x, 'Some'), '0', 0)
+                    return _renorm(field_of(payload_of(x, 'Some'), '0', 0))
                 if inner[2] == 'Break':
                     return ('residual', x)
     if k == 'call' and isinstance(t[1], str):
@@ -748,6 +756,23 @@ def norm(t):
                     return ('adt', 'core::option::Option', 'None', ())
         if any(c.endswith(sfx) for sfx in TRANSPARENT_SUFFIX) and len(t[2]) == 1:
             return ('autoderef', t[2][0])
+    if k == 'payload' and t[1][0] == 'phi':
+        alts = t[1][1]
+        if all(a[0] == 'adt' and a[1] in STD_DISCR for a in alts):
+            keep = [a for a in alts if a[2] == t[2]]
+            if len(keep) == 1:
+                return keep[0]
+            if len(keep) > 1:
+                return ('phi', tuple(keep))
+    if k == 'field' and t[1][0] == 'adt':
+        return field_of(t[1], t[2], t[2] if isinstance(t[2], int) else None)
+    if k == 'field' and t[1][0] == 'phi' and all(a[0] == 'adt' for a in t[1][1]):
+        vals = []
+        for a in t[1][1]:
+            v = field_of(a, t[2], t[2] if isinstance(t[2], int) else None)
+            if v not in vals:
+                vals.append(v)
+        return vals[0] if len(vals) == 1 else ('phi', tuple(vals))
     if k == 'deref' and t[1][0] == 'ref':
         return t[1][1]
     if k == 'deref' and t[1][0] == 'autoderef':
